@@ -7,6 +7,8 @@
 (*   running_average : w, after     remove_average / rebase_displacement : *)
 (*   after                          havoc : name, deg, after [, cold]      *)
 (*   read : what, k, val  (val = <<re, im>> for "fas", else <<x, 0>>)      *)
+(*   set_rt : rt (new response periods)   read_rs : k, sd, sa (s_d[k],     *)
+(*   s_a[k] read lazily: default damping and refinement rule)              *)
 (* `after` is the record the real object holds after the call.             *)
 (* Clauses: Def_<op> (the object's new record is what the operation        *)
 (* defines), Read_<what> (the returned value is what the kernels compute   *)
@@ -15,11 +17,11 @@
 EXTENDS SignalObj, Json, IOUtils, TLC, VerdictLib
 
 Recs == ndJsonDeserialize(IOEnv.TRACE_FILE)
-VARIABLES tid, l, vals, dt, bad
-vars == <<tid, l, vals, dt, bad>>
+VARIABLES tid, l, vals, dt, rt, bad
+vars == <<tid, l, vals, dt, rt, bad>>
 R == Recs[tid]
 N == Len(R.events)
-Init == tid \in 1..Len(Recs) /\ l = 0 /\ vals = <<>> /\ dt = One /\ bad = {}
+Init == tid \in 1..Len(Recs) /\ l = 0 /\ vals = <<>> /\ dt = One /\ rt = <<>> /\ bad = {}
 
 S == FAdd(FMaxAbs(vals), FStr("1e-300"))
 T == FMul(FInt(Len(vals)), dt)
@@ -31,6 +33,7 @@ ReadOK(e) == ReadValueOK(vals, dt, e)
 
 Step ==
   /\ l >= 0 /\ l < N /\ l' = l + 1 /\ tid' = tid
+  /\ rt' = (LET e == R.events[l + 1] IN IF e.op \in {"construct", "set_rt"} /\ "rt" \in DOMAIN e THEN e.rt ELSE rt)
   /\ LET e == R.events[l + 1]  op == e.op IN
      CASE op \in {"construct", "reset_values"} ->
             /\ vals' = e.vals /\ dt' = (IF op = "construct" THEN e.dt ELSE dt) /\ bad' = bad
@@ -55,10 +58,14 @@ Step ==
                            \cup (IF "cold" \in DOMAIN e
                                  THEN Fails(Len(e.cold) = Len(e.after) /\ SeqNear(e.after, e.cold, FMul(FStr("1e-9"), S)), "Havoc_" \o e.name \o "_history")
                                  ELSE {})
+       [] op = "set_rt" -> vals' = vals /\ dt' = dt /\ bad' = bad
+       [] op = "read_rs" ->
+            /\ vals' = vals /\ dt' = dt
+            /\ bad' = bad \cup Fails(ReadSpectrumOK(vals, dt, rt, e.k, e.sd, e.sa), "Read_response_spectrum")
        [] op = "read" ->
             /\ vals' = vals /\ dt' = dt /\ bad' = bad \cup Fails(ReadOK(e), "Read_" \o e.what)
        [] OTHER -> /\ vals' = vals /\ dt' = dt /\ bad' = bad \cup {"UnknownOp"}
-Finish == l = N /\ l' = -1 /\ UNCHANGED <<tid, vals, dt, bad>>
+Finish == l = N /\ l' = -1 /\ UNCHANGED <<tid, vals, dt, rt, bad>>
 Next == Step \/ Finish
 Spec == Init /\ [][Next]_vars
 Verdict == l = -1 => EmitVerdict(R.tid, bad, N)
